@@ -174,8 +174,15 @@ for (const sname of Object.keys(spec.structs)) {
         enumReads = {};
         for (const [vn, vv] of l.variants) {
           const hits = [];
+          // background bytes that do not form any variant's discriminant (all-zero memory would read as a
+          // zero-valued variant at every offset)
+          let fillByte = 0x5A;
+          const isDisc = (b) => l.variants.some(([_, d]) => (d >>> 0) === ((b * 0x01010101) >>> 0));
+          while (isDisc(fillByte)) fillByte++;
           for (let j = 0; j + 4 <= sizeGuess; j++) {
             prep();
+            mem.fill(fillByte, PTR, PTR + sizeGuess);
+            for (const p of (l.opt || [])) if (flagOffsets[p] >= 0) mem[PTR + flagOffsets[p]] = 1;
             if ((l.opt || []).some(p => flagOffsets[p] >= j && flagOffsets[p] < j + 4)) continue;
             new DataView(MEM).setInt32(PTR + j, vv, true);
             let v; try { v = show(getLeaf(readAll(), l.path)); } catch (e) { v = "throws"; }
